@@ -210,6 +210,99 @@ def literals(ctx):
     ctx.extra["literal_forms_tried"] = n
 
 
+def to_c(tokens, context, consts):
+    """C source for a token list of the reference tokenizer: every literal and bound identifier as a long long."""
+    out = []
+    i = 0
+    while i < len(tokens):
+        kind, v = tokens[i]
+        if kind == "num":
+            out.append(f"{v}LL")
+        elif kind == "id" and v == "sizeof":
+            j = i + 2
+            words = []
+            while tokens[j][0] == "id":
+                words.append(tokens[j][1])
+                j += 1
+            out.append(f"{sizeof(' '.join(words))}LL")
+            i = j
+        elif kind == "id":
+            out.append(f"({int(context[v] if v in context else consts[v])}LL)")
+        else:
+            out.append(v)
+        i += 1
+    return " ".join(out)
+
+
+def cc_crosscheck(ctx, n):
+    """A real C compiler as a third evaluator: a batch of random expressions (those whose every intermediate fits a
+    long long and is defined in C) is compiled and run; the library must agree with the compiler, and so must the
+    reference evaluator (otherwise the oracle itself is wrong and the shard is inconclusive)."""
+    import os
+    import shutil
+    import subprocess
+    import tempfile
+
+    cc = shutil.which("cc") or shutil.which("gcc") or shutil.which("clang")
+    if cc is None:
+        ctx.event("c_compiler_unavailable")
+        return
+    rng = ctx.rng("cc")
+    cs = lib.cstruct()
+    batch = []
+    tries = 0
+    while len(batch) < n and tries < n * 20:
+        tries += 1
+        text = random_expr(rng, rng.randint(2, 6))
+        k = rng.randrange(len(BINDINGS))
+        context, consts = BINDINGS[k]
+        try:
+            want, flags, info = refexpr.evaluate_ex(text, context, consts, sizeof)
+        except (refexpr.RefSyntaxError, refexpr.RefNameError):
+            continue
+        if flags or want is None or info["notes"] or info["maxabs"] >= 2 ** 62:
+            ctx.event("cc_skipped_undefined_in_C")
+            continue
+        batch.append((text, k, want, to_c(info["tokens"], context, consts)))
+    src = ["#include <stdio.h>", "int main(void) {"]
+    for i, (_t, _k, _w, ctext) in enumerate(batch):
+        src.append(f'  printf("%d %lld\\n", {i}, (long long)({ctext}));')
+    src.append("  return 0; }")
+    tmp = tempfile.mkdtemp(prefix="vf-c10-")
+    try:
+        path = os.path.join(tmp, "expr.c")
+        with open(path, "w") as fh:
+            fh.write("\n".join(src) + "\n")
+        r = subprocess.run([cc, "-std=gnu11", "-O0", "-w", path, "-o", os.path.join(tmp, "expr")],
+                           capture_output=True, text=True, timeout=300)
+        if r.returncode != 0:
+            ctx.event("c_compiler_rejected_batch")
+            ctx.extra["c_compiler_error"] = r.stderr[-400:]
+            return
+        out = subprocess.run([os.path.join(tmp, "expr")], capture_output=True, text=True, timeout=60).stdout
+    finally:
+        shutil.rmtree(tmp, ignore_errors=True)
+    for line in out.splitlines():
+        i, val = (int(x) for x in line.split())
+        text, k, want, ctext = batch[i]
+        context, consts = BINDINGS[k]
+        ctx.evaluation(("cc", text, k))
+        ctx.event("checked_against_c_compiler")
+        if val != want:
+            ctx.note_inconclusive(f"reference evaluator ({want}) and C compiler ({val}) disagree on {text!r} [{ctext}]")
+            continue
+        cs.consts.clear()
+        cs.consts.update(consts)
+        e, res = lib_eval(cs, text, context)
+        if res[0] != "ok" or res[1] != val:
+            ctx.violation("c-compiler", "value-differs-from-what-the-C-compiler-computes",
+                          {"text": text, "context": context, "consts": consts, "c_source": ctext, "want": val,
+                           "got": res[1] if res[0] == "ok" else lib.exc_sig(res[1])})
+        if i < 2:
+            ctx.sample({"expression": text, "c_source": ctext, "c_compiler": val, "library": repr(res[1])})
+    ctx.cell("c-compiler")
+
+
 def run(ctx):
     mon = ExprMonitor(ctx)
     mon.install()
@@ -229,6 +322,7 @@ def run(ctx):
             if i < 3:
                 ctx.sample({"expression": text, "context": context, "consts": consts})
         ctx.cell("random")
+        cc_crosscheck(ctx, 400 if not ctx.thorough else 6000)
         # in situ: array lengths / enum values / #define constants evaluated while loading and parsing
         for i in range(6 if not ctx.thorough else 120):
             r2 = ctx.rng("insitu", i)
